@@ -338,7 +338,8 @@ def check_label_responses(ctx: Ctx, metas, resp):
     by_canon = {}
     for (what, inp, real, extra, valid), r in zip(metas, resp):
         ctx.traces += 1
-        ctx.case((what, repr(inp)), nontrivial=real.startswith("ok"), sample={"request": what, "input": repr(inp)[:120], "model": r[:80]})
+        ctx.case((what, repr(inp)), nontrivial=real.startswith("ok"),
+                 sample={"request": what, "input": repr(inp)[:120], "model": r[:80]} if len(ctx.samples) < 2 else None)
         if r.startswith("err"):
             if real != r:
                 ctx.disagree(f"label-{what}", inp, real, r)
@@ -966,7 +967,9 @@ def compare_simple(ctx: Ctx, metas, resp):
     for (what, inp, real), r in zip(metas, resp):
         ctx.traces += 1
         nontrivial = not real.startswith("err") and real not in ("ok -",)
-        ctx.case((what, repr(inp)), nontrivial=nontrivial, sample={"request": what, "input": repr(inp)[:160], "model": r[:100]})
+        seen_kinds = {x.get("request") for x in ctx.samples if isinstance(x, dict)}
+        ctx.case((what, repr(inp)), nontrivial=nontrivial,
+                 sample={"request": what, "input": repr(inp)[:200], "real": real[:120], "model": r[:120]} if what not in seen_kinds else None)
         if real != r:
             if what == "prog" and real.split(" ")[0] == r.split(" ")[0] and unordered(real.split(" ", 1)[1] if " " in real else "") == unordered(
                 r.split(" ", 1)[1] if " " in r else ""
